@@ -34,7 +34,7 @@ prop("C02", level="exploration",
      level_note="Texts containing \\u escapes that do not denote a Unicode scalar value (unpaired surrogates) and texts starting with a BOM/NUL (encoding detection) are not judged (DESIGN §3). wchar_t input is exercised by C01. "
                 "Exhaustive: exhaustive=true for the token-alphabet space only.",
      technique="runtime monitoring: in-process differential monitor against an independent RFC 8259 recogniser over a bounded-exhaustive token space plus generated/mutated documents, ASan/UBSan",
-     rule="exhaustive stage: all 10 172 526 strings of <= 5 alphabet symbols x 4 configurations; generative stage: foreign-written / mutated / JSONTestSuite texts; distinct = distinct texts; every text is non-trivial (the empty text once)",
+     rule="exhaustive stage: all 10 172 526 strings of <= 5 alphabet symbols x 4 configurations; generative stage: foreign-written / mutated / JSONTestSuite texts; distinct = distinct texts; every text is non-trivial (the empty text once) Added after the seeded-change rounds: every accepted text is also read into the sorted-object policy and by the wchar_t parser (value compared through an own UTF-8/UTF-32 conversion); wide objects (14-53 pairs) with repeated names; raw UTF-8 sequences at every boundary of the well-formedness table inside strings and names; NaN/Inf substitution names registered without inverse.",
      assumptions=["independent recogniser drivers/common/rfc8259.hpp", "glibc strtod is correctly rounded"],
      stages=[dict(name="exhaustive", driver="c02_parser", flagset="asan", quick=10172526, thorough=254313151, args_quick=["--mode", "exhaustive", "--L", "5"], args_thorough=["--mode", "exhaustive", "--L", "6"]),
              dict(name="generative", driver="c02_parser", flagset="asan", quick=400000, thorough=6000000)])
@@ -48,7 +48,7 @@ prop("C03", level="exploration",
                 "(readers stringify the key, cursors report the raw item). CSV deliveries are covered by the C18/C05 drivers, not here.",
      technique="runtime monitoring: differential delivery monitor over recorded event sequences (push visitor vs stream/iterator/incremental/cursor), ASan/UBSan",
      rule="inputs = dumps of generated values (pretty/compact, CRLF), stress strings on token boundaries, 0-3 random mutations/truncations, every prefix of the stress strings; binary = encodings of "
-          "generated values + byte mutations; distinct = distinct input bytes; every input counts as non-trivial (empty input included once)",
+          "generated values + byte mutations; distinct = distinct input bytes; every input counts as non-trivial (empty input included once) Added later: encoding-detection byte patterns beyond the start of the text, RFC 8746 typed arrays of every element type, cursor read_to from every container in the binary formats, CSV text (reader vs stream reader vs cursors over mapping/header/delimiter/trim/subfield options), streams of several JSON values read with read_next()/eof().",
      assumptions=["the reference delivery is jsoncons' own whole-buffer reader: the oracle is agreement, not absolute correctness (C02/C07 judge that)"],
      stages=[dict(name="delivery", driver="c03_delivery", flagset="asan", quick=120000, thorough=1200000)])
 
@@ -61,7 +61,7 @@ prop("C05", level="exploration",
      level_note="Quick tier: deterministic seeded mutation (no coverage feedback). Constructs that crash the unchanged tree (TOON reader on malformed text, unbounded recursion in schema $ref/expression nesting, ...) are open findings kept as "
                 "isolated witnesses (one process case each) and are not re-generated by the random workload, so that one known crash does not mask the rest.",
      technique="runtime monitoring: compiler sanitizers (ASan, UBSan, LSan) + exception-channel monitor + watchdog over a structure-aware mutational workload",
-     rule="case = seed (encoding of a generated value, spec-style vector, JSONTestSuite/CSV fixture, expression, schema) + 0-5 byte/token mutations, executed through every entry point of its family; distinct = distinct mutated input; every input is non-trivial",
+     rule="case = seed (encoding of a generated value, spec-style vector, JSONTestSuite/CSV fixture, expression, schema) + 0-5 byte/token mutations, executed through every entry point of its family; distinct = distinct mutated input; every input is non-trivial Added later: TOON token-level mutation inside a sub-space free of the known crash triggers, CBOR typed-array/multi-dimensional generator (every element type, extents smaller/equal/larger than the storage), JSONPath parent-operator seeds, incremental chunks in exact-size heap blocks.",
      assumptions=["sanitizer coverage limits (intra-object overflow, quarantine reuse)", "seeds under /repo/test are read at run time"],
      stages=[dict(name="decoders", driver="c05_decoders", flagset="asan", quick=64000, thorough=800000),
              dict(name="decoder_witnesses", driver="c05_decoders", flagset="asan", quick=5, thorough=5, args=["--mode", "witnesses"], workers_quick=1, workers_thorough=1),
@@ -77,7 +77,7 @@ prop("C06", level="exploration",
      level_note="Sampled. Documented lossy mappings are encoded in drivers/c06_binroundtrip.cpp:fdiff (bignums as plain strings in MessagePack/BSON, byte strings as uint8 arrays and uint64>2^63-1 as "
                 "high-precision numbers in UBJSON, half floats may come back as the same number in a wider float); epoch_milli/nano tags and non-document BSON roots are not value-judged.",
      technique="runtime monitoring: in-process round-trip monitor with format-aware strict structural oracle and value shrinking, ASan/UBSan",
-     rule="value generator DESIGN §2.4 with byte strings, non-finite doubles, half floats and CBOR tags; distinct = distinct (format, typed description); non-trivial = container with >=1 element or non-empty string",
+     rule="value generator DESIGN §2.4 with byte strings, non-finite doubles, half floats and CBOR tags; distinct = distinct (format, typed description); non-trivial = container with >=1 element or non-empty string Added later: four encode routes (encode_X into bytes, bytes encoder, encode_X into std::ostream, stream encoder) x three decode routes; catalogue of container sizes 14-17, 23-25, 31-33, 255-257, 65535-65537 for strings, byte strings, arrays and objects; documents of 16-70 KiB through every route; MessagePack timestamp and CBOR bigfloat catalogues.",
      assumptions=["documented per-format mappings as transcribed in fdiff()", "strict structural compare"],
      stages=[dict(name="binrt", driver="c06_binroundtrip", flagset="asan", quick=250000, thorough=2500000)])
 
@@ -113,7 +113,7 @@ prop("C09", level="exploration",
      level_note="Random histories of 50-400 operations, not exhaustive; the model's ojson ordering rules (assign keeps position, new keys append, merge appends in source order) are the documented behaviour. "
                 "NaN values are excluded from the relational laws; number-tagged strings are excluded from the 'equal prints identically' law.",
      technique="runtime monitoring: in-process reference-model history monitor + relational law monitor, ASan/UBSan",
-     rule="histories of 50-400 random operations over 4 slots, keys from an 8-key alphabet (SSO boundary, empty, escapes), values from the model generator; distinct = distinct operation trace; every history is non-trivial",
+     rule="histories of 50-400 random operations over 4 slots, keys from an 8-key alphabet (SSO boundary, empty, escapes), values from the model generator; distinct = distinct operation trace; every history is non-trivial Added later: hinted insert_or_assign/try_emplace/merge/merge_or_update with hints at, before and after the key; range insert with repeated names and up to 34 entries.",
      assumptions=["plain C++ model drivers/common/model.hpp", "values read through public observers only"],
      stages=[dict(name="container", driver="c09_container", flagset="asan", quick=12000, thorough=150000)])
 
@@ -126,7 +126,7 @@ prop("C10", level="exploration",
      level_note="Limits L sampled from {0,1,2,3,7,64,1023,1024,1025,20000} and 0..80 in quick, 0..20000 in thorough. The meter constants were fixed from the unchanged tree (observed peak 33 KB on every claim). "
                 "256 KiB is the 'small fixed stack' (measured maximum 169 KB at depth 1024, -O2).",
      technique="runtime monitoring: boundary sweep monitor + allocation meter (operator new hook) under ASan/UBSan; painted-stack high-water monitor with guard page (no sanitizer)",
-     rule="cells = (format, opening path, limit, depth offset, route) | (encoder, kind, limit) | (claim kind, claimed length, trailing bytes, source) | (max_items N, path); distinct = distinct case index, every cell is non-trivial",
+     rule="cells = (format, opening path, limit, depth offset, route) | (encoder, kind, limit) | (claim kind, claimed length, trailing bytes, source) | (max_items N, path); distinct = distinct case index, every cell is non-trivial Added later: compact and pretty JSON encoders and the CSV encoder at every depth offset; CBOR paths with multi-dimensional/typed-array siblings in front of the deep chain; sibling-chain paths (three chains in one array) for JSON, CBOR, MessagePack and UBJSON.",
      assumptions=["meter bound A=96KiB, B=24 is calibrated on the unchanged tree", "stack bound 256 KiB at -O2 without sanitizer instrumentation"],
      stages=[dict(name="limits", driver="c10_limits", flagset="asan", quick=6000, thorough=80000),
              dict(name="stack", driver="c10_stack", flagset="plain", quick=600, thorough=8000)])
@@ -139,7 +139,7 @@ prop("C18", level="exploration",
                 "delimiter kinds x length marker, including arrays of uniform objects. ASan+UBSan.",
      level_note="Sampled. Quote style none is an explicit opt-out: only safety is checked. The TOON reader/writer of the unchanged tree fails on 16 constructs (open findings T1-T9, each an isolated witness re-executed on every run); randomly generated TOON values avoid exactly those constructs (toon_safe() in the driver) and any other TOON mismatch is a violation. CSV has one open finding (single-column record holding an empty string, minimal quoting).",
      technique="runtime monitoring: in-process round-trip monitor with an independent CSV field scanner and strict structural oracle; value shrinking for witnesses; ASan/UBSan",
-     rule="case = generated (table, options) or (value, TOON options); distinct = distinct case index (CSV) / distinct value description (TOON); non-trivial = container with >= 1 element or non-empty string",
+     rule="case = generated (table, options) or (value, TOON options); distinct = distinct case index (CSV) / distinct value description (TOON); non-trivial = container with >= 1 element or non-empty string Added later: TOON list-item shapes whose members are primitives, primitive arrays and arrays of primitive arrays, all three delimiters.",
      assumptions=["CSV field scanner in drivers/c18_csv_toon.cpp implements RFC 4180 quoting with configurable quote/escape characters"],
      stages=[dict(name="csvtoon", driver="c18_csv_toon", flagset="asan", quick=150000, thorough=2000000)])
 
@@ -152,7 +152,7 @@ prop("C19", level="fault_enumeration",
                 "deallocations must match. A tracking stateful allocator (scoped_allocator_adaptor) checks that every block returns to an equal allocator with the requested size, also under injected failures.",
      level_note="Every allocation index of each (scenario, input) is enumerated (single-failure model: exactly one allocation fails per run); inputs are sampled. Function-local statics are warmed up outside the window.",
      technique="runtime monitoring with fault injection: counting operator-new fail-point enumerating every allocation index, live-block conservation monitor, tracking stateful allocator, ASan/UBSan",
-     rule="case = (scenario, generated input); for each, every allocation index 1..N is injected; distinct = distinct case index; every case is non-trivial (N >= 1 allocations)",
+     rule="case = (scenario, generated input); for each, every allocation index 1..N is injected; distinct = distinct case index; every case is non-trivial (N >= 1 allocations) Added later: scenarios copy-assign-kind-pairs (all pairs of heap-backed storage kinds) and apply-patch-moves (1-18 random replace/move/add/remove/copy operations).",
      assumptions=["single allocation failure per run", "leak accounting by allocation headers written by the driver's operator new"],
      stages=[dict(name="allocfail", driver="c19_allocfail", flagset="asan_noleak", quick=24000, thorough=160000)])
 
@@ -163,7 +163,7 @@ prop("C20", level="exploration",
                 "reports (log parsed, de-duplicated by stack pair) and every per-thread result equal to the single-threaded result computed before the threads start.",
      level_note="TSan sees only the interleavings that occurred; runs are repeated because reports vary run to run. The monitor keeps per-thread buffers merged after join (no shared mutable monitor state).",
      technique="runtime monitoring: ThreadSanitizer race detection + per-thread result comparison against single-threaded results",
-     rule="episode = (thread count in {2,4,8,16}, focus artifact, per-thread seeded operation streams); distinct = distinct (episode index, thread count); every episode is non-trivial",
+     rule="episode = (thread count in {2,4,8,16}, focus artifact, per-thread seeded operation streams); distinct = distinct (episode index, thread count); every episode is non-trivial Added later: shared document with doubles for which Grisu3 gives up, extremes and big numbers; JSONPath tokenize() with per-item regular expressions taken from the document.",
      assumptions=["libstdc++ is not TSan-instrumented; std::regex internals are seen through interceptors only"],
      stages=[dict(name="threads", kind="python", module="c20", builds=[("c20_threads", "tsan")], repeats_quick=3, episodes_quick=12, ops_quick=300, repeats_thorough=6, episodes_thorough=30, ops_thorough=800)])
 
